@@ -24,10 +24,11 @@ Clauses (names are used in counters and signatures):
   api-call              none of the six API calls raises
   foreign-exception     run() raises nothing but what a callback raised
 
-"quiescent" is explicit in virtual mode (a `block` record = the loop waited in the OS).  In real
-mode it is inferred logically: between two consecutive alarm/watch callbacks p, q the loop must
-have waited if q is an alarm that was due >= gap after p returned (loop clock), never from wall
-clock measurements of the harness.
+"quiescent" is explicit in both modes: a `block` record written by the monitor at the OS wait
+primitive.  Virtual OS: the fake clock advanced because nothing was ready.  Real OS: the loop ENTERED
+its wait primitive (selector.select / epoll / zmq poll / trio io wait) with a requested timeout of at
+least `qwait` seconds or none at all - the loop's own decision to sleep, which no scheduling stall of
+the host can fake (how long the wait then took is never used).
 """
 
 from __future__ import annotations
@@ -63,7 +64,7 @@ def _exc_name(r):
     return r.get("type", "?")
 
 
-def check(hist: list[dict], mode: str, eps_due: float, res_order: float, gap: float) -> Result:
+def check(hist: list[dict], mode: str, eps_due: float, res_order: float, qwait: float) -> Result:
     R = Result()
     virtual = mode == "virtual"
 
@@ -115,18 +116,13 @@ def check(hist: list[dict], mode: str, eps_due: float, res_order: float, gap: fl
                 return i
         return None
 
+    def is_q(ev):
+        """is this `block` record a quiescent wait?"""
+        return _is_quiescent(ev, qwait)
+
     def quiescent_between(i, j):
-        """did the loop demonstrably wait in the OS between events i and j?"""
-        if virtual:
-            return not _no_block_between(hist, i, j)
-        t_i = hist[i].get("t1", hist[i].get("t"))
-        for k in range(i + 1, j + 1):
-            ev = hist[k]
-            if ev["e"] == "enter" and ev["kind"] == "alarm" and ev["id"] in alarms:
-                a = alarms[ev["id"]]
-                if a["t0"] + a["sec"] >= t_i + gap:
-                    return True
-        return False
+        """did the loop go quiescent (wait in the OS) between events i and j?"""
+        return any(ev["e"] == "block" and is_q(ev) for ev in hist[i:j])
 
     # ---------------------------------------------------------------- alarms
     for cid, a in alarms.items():
@@ -192,13 +188,13 @@ def check(hist: list[dict], mode: str, eps_due: float, res_order: float, gap: fl
             if a["entries"] and a["entries"][0] < ib:
                 continue
             # A registered before B ran, due earlier, not removed, not yet run
-            same_batch = _no_block_between(hist, a["reg"], ib) if virtual else None
+            same_batch = not quiescent_between(a["reg"], ib)
             R.bad(
                 "alarm-order",
                 "later-due-alarm-ran-first"
                 + ("|earlier-was-registered-in-idle-callback" if (hist[a["reg"]].get("ctx") or [None, None])[1] == "idle" else ""),
                 f"alarm {b_id} (due +{(b_due_lo - a_due_hi) * 1e3:.3f} ms later) entered before alarm {a_id}" + ("" if a["entries"] else " which then never ran")
-                + ("" if same_batch is None else f" (registered-in-same-batch={same_batch})"),
+                + f" (no quiescent wait since the earlier one was registered: {same_batch})",
                 ib,
             )
 
@@ -266,6 +262,7 @@ def check(hist: list[dict], mode: str, eps_due: float, res_order: float, gap: fl
                     q_idx,
                 )
 
+    unserved: dict[str, int] = {}  # watch id -> index of a quiescent wait that started with its fd readable
     seg_raise = None  # index of first raising exit in the current run segment
     last_exit = None  # exit index of the last alarm/watch callback with no quiescence since
     in_run = False
@@ -273,6 +270,7 @@ def check(hist: list[dict], mode: str, eps_due: float, res_order: float, gap: fl
         e = ev["e"]
         if e == "run_begin":
             in_run, seg_raise, last_exit = True, None, None
+            unserved.clear()
         elif e == "run_end":
             in_run = False
         elif not in_run:
@@ -282,26 +280,25 @@ def check(hist: list[dict], mode: str, eps_due: float, res_order: float, gap: fl
                 seg_raise = i
             if ev["kind"] in ("alarm", "watch"):
                 last_exit = i
-        elif e == "block" and virtual and seg_raise is None:
-            if ev["t_to"] is None or ev["t_to"] > ev["t_from"]:
-                if last_exit is not None:
-                    judge_quiescence(last_exit, i, "block")
-                    last_exit = None
-                for cid, w in watches.items():
-                    if active(watches, cid, i, i):
-                        R.evals["watch-served"] += 1
-                        if w["fd"] in ev.get("readable_from", ()):
-                            R.bad("watch-served", "blocked-while-watched-fd-readable", f"loop blocked while watch {cid} fd {w['fd']} readable", i)
-        elif e == "enter" and not virtual and seg_raise is None and ev["kind"] in ("alarm", "watch"):
-            if last_exit is not None and ev["kind"] == "alarm" and ev["id"] in alarms:
-                a = alarms[ev["id"]]
-                if a["t0"] + a["sec"] >= hist[last_exit]["t"] + gap and a["reg"] <= last_exit:
-                    judge_quiescence(last_exit, i, "wait")
-                    for cid, w in watches.items():
-                        if active(watches, cid, last_exit, i):
-                            R.evals["watch-served"] += 1
-                            if w["fd"] in ev["readable"] and w["fd"] in _readable_at_exit(hist, last_exit):
-                                R.bad("watch-served", "waited-while-watched-fd-readable", f"loop waited >= gap while watch {cid} fd {w['fd']} readable", i)
+        elif e == "block" and seg_raise is None and is_q(ev):
+            if last_exit is not None:
+                judge_quiescence(last_exit, i, "quiescent wait")
+                last_exit = None
+            for cid, w in watches.items():
+                if not active(watches, cid, i, i):
+                    continue
+                R.evals["watch-served"] += 1
+                if w["fd"] not in ev.get("readable_from", ()):
+                    unserved.pop(cid, None)
+                elif virtual:
+                    # the fake OS reports every registered readable descriptor at once: blocking proves it was not registered
+                    R.bad("watch-served", "blocked-while-watched-fd-readable", f"loop blocked while watch {cid} fd {w['fd']} readable", i)
+                elif cid in unserved and not any(unserved[cid] < j < i for j in w["entries"]):
+                    # real OS: a registered readable descriptor ends a wait at once and must be dispatched before the
+                    # loop waits again; two quiescent waits in a row that both start with it readable prove it is not served
+                    R.bad("watch-served", "two-quiescent-waits-while-watched-fd-readable" + ("|watch-was-registered-in-idle-callback" if (hist[w["reg"]].get("ctx") or [None, None])[1] == "idle" else ""), f"loop started two quiescent waits (events {unserved[cid]}, {i}) while watch {cid} fd {w['fd']} stayed readable and was not called", i)
+                else:
+                    unserved[cid] = i
 
     # ---------------------------------------------------------------- exit / exception rules, per run segment
     segs = []
@@ -349,19 +346,22 @@ def check(hist: list[dict], mode: str, eps_due: float, res_order: float, gap: fl
             R.obs["more-than-one-callback-raised-in-a-run"] += 1
         # did the loop continue (go quiescent) after the first raise?
         continued = None
+        waited = None
         later_cb = 0
         for j in range(r1 + 1, s["end"]):
             ev = hist[j]
             if ev["e"] == "enter":
                 later_cb += 1
-                if not virtual and ev["kind"] == "alarm" and ev["id"] in alarms:
-                    a = alarms[ev["id"]]
-                    if a["t0"] + a["sec"] >= r1ev["t"] + gap:
-                        continued = j
-                        break
-            elif ev["e"] == "block" and virtual and (ev["t_to"] is None or ev["t_to"] > ev["t_from"]):
-                continued = j
-                break
+                if waited is not None and ev["kind"] in ("alarm", "watch"):
+                    # the loop went to sleep after the exception AND dispatched another alarm/watch callback afterwards
+                    # (a wait alone is not enough: trio's shutdown enters a long wait that its own wake-up ends at once)
+                    continued = j
+                    break
+            elif ev["e"] == "block" and is_q(ev) and waited is None:
+                waited = j
+                if ev["t_to"] is None:
+                    continued = j
+                    break
         if later_cb:
             R.obs["callback-entered-after-another-raised"] += 1
         if continued is not None:
@@ -434,13 +434,9 @@ def _where(ev):
     return _ctxkind(ev.get("ctx"))
 
 
-def _no_block_between(hist, i, j):
-    return not any(ev["e"] == "block" and (ev["t_to"] is None or ev["t_to"] > ev["t_from"]) for ev in hist[i:j])
-
-
-def _readable_at_exit(hist, i):
-    # readability is sampled at entries only; use the next entry after exit i
-    for k in range(i + 1, len(hist)):
-        if hist[k]["e"] == "enter":
-            return set(hist[k]["readable"])
-    return set()
+def _is_quiescent(ev, qwait):
+    """virtual OS: a block record exists only when the fake clock advanced (nothing was ready).
+    real OS: the wait primitive was entered with a requested timeout of at least qwait (or none)."""
+    if "timeout" in ev:
+        return ev["timeout"] is None or ev["timeout"] >= qwait
+    return ev["t_to"] is None or ev["t_to"] > ev["t_from"]
